@@ -7,7 +7,9 @@ ID = "C07"
 HMODULE = "H_C07"
 EXTRA_CHECK_FNS = ["check_bounds"]
 SHARD = 30
-RULE = ("KroneckerFactoredLattice layers built in float64: lattice_sizes 2-4, dims 1-4, units 1-3, terms 1-3, "
+RULE = ("KroneckerFactoredLattice layers built in float64 (and ~10% of all cases, class suffix _f32, in float32 - the "
+        "layer's DEFAULT dtype - with dims <= 3, kernels of the classes small / zeros / power / ties / sorted, scales "
+        "halved, every assigned value exact in float32, tolerance 1e-5): lattice_sizes 2-4, dims 1-4, units 1-3, terms 1-3, "
         "monotonicity subsets (none / None / EMPTY list [] or tuple () / all-zero list / some / all; ints, strings, "
         "tuple), bounds "
         "none/min/max/both, clip_inputs on/off; kernels random / negative / far (+-64) / ties / sorted / zeros / "
@@ -23,7 +25,8 @@ RULE = ("KroneckerFactoredLattice layers built in float64: lattice_sizes 2-4, di
 TRUSTED = ["model: Model/KFL.v (hand-written from kronecker_factored_lattice_lib.py and "
            "kronecker_factored_lattice_layer.py); tf.pow(x, 1/dims) is an exact-root oracle in the theorems "
            "(root d x >= 1 and (root d x)^d == x for x >= 1) and a truncated Newton iteration when executed",
-           "tie: layer built in float64, parameters assigned, constraints applied through the variables' "
+           "tie: layer built in float64 (tolerance 1e-9) or float32 (tolerance 1e-5, passed to Coq with the case: "
+           "CTol), parameters assigned, constraints applied through the variables' "
            ".constraint / finalize_constraints(), parameters and outputs compared in Coq; the model's "
            "constrained parameters are additionally checked against the bounds inside Coq (check_bounds)"]
 LIMITS = ["the optimizer changing scale AFTER the kernel was constrained against the old sign, with no further "
@@ -31,7 +34,22 @@ LIMITS = ["the optimizer changing scale AFTER the kernel was constrained against
           "out-of-range inputs with clip_inputs=False are compared (model = implementation) but carry no "
           "monotonicity / bound claim",
           "float rounding (one-ulp excursions after the division by the dims-th root) is outside the model; "
-          "tolerance 1e-9"]
+          "tolerance 1e-9 (float32 layers: 1e-5 * max(1, |v|) in the Coq comparison and in the predicates; the direct "
+          "kronecker_factored_lattice_lib calls run in float64 only)"]
+
+F32_KCLASSES = ["small", "small", "zeros", "power", "ties", "sorted"]
+F32_TOL = 1e-5
+
+
+def fine(rng, v):
+  """float32 cases only: moves a value by a few 2^-12 (still exact in float32, but not in float16 / bfloat16: a lossy
+  cast on the float32 path is invisible on multiples of 1/8)."""
+  return v + rng.choice([0, 0, 1, -1, 3, -5]) * 2.0 ** -12
+
+
+def is_f32(d):
+  return d.get("dtype") == "float32"
+
 
 STEP_SEQS = [["K"], ["S"], ["K", "S"], ["S", "K"], ["F"], ["K", "S", "K"], ["S", "K", "S"], ["F", "F"],
              ["K", "S", "F"], ["K", "K"], ["F", "K"], ["S", "F", "S"]]
@@ -179,9 +197,26 @@ def gen_descs(ctx):
       steps = steps + [["A", s2]] + [[s] for s in rng.choice(STEP_SEQS)]
     iform = rng.choice(["tensor", "tensor", "list", "rows"])
     pts, lines = _points(rng, L, units, dims, ms, clip)
-    out.append(dict(kind="layer", L=L, dims=dims, units=units, terms=terms, monos=marg, omin=omin, omax=omax,
-                    clip=clip, k0=k0, s0=s0, b0=b0, steps=steps, iform=iform, pts=pts, lines=lines,
-                    kclass=kclass, sclass=sclass))
+    d = dict(kind="layer", L=L, dims=dims, units=units, terms=terms, monos=marg, omin=omin, omax=omax,
+             clip=clip, k0=k0, s0=s0, b0=b0, steps=steps, iform=iform, pts=pts, lines=lines,
+             kclass=kclass, sclass=sclass)
+    if dims <= 3 and rng.random() < 0.2:
+      # float32 layer: moderate magnitudes (|kernel| <= 2, so products <= 8; scales halved), and every assigned
+      # value is made exact in float32
+      f = lambda v: float(np.float32(v))
+      if kclass not in F32_KCLASSES:
+        d["kclass"] = kclass = rng.choice(F32_KCLASSES)
+        d["k0"] = _kernel(rng, kclass, L, units, dims, terms)
+      if sclass == "large":
+        d["sclass"] = sclass = "random"
+        d["s0"] = _scale(rng, sclass, units, terms, omin, omax)
+      if kclass in ("small", "ties"):
+        d["k0"] = [[[fine(rng, v) for v in r] for r in m] for m in d["k0"]]
+      d["s0"] = [[f(fine(rng, v / 2.0) if abs(v) >= 0.125 else v / 2.0) for v in row] for row in d["s0"]]
+      d["steps"] = [[st[0], [[f(min(max(v / 2.0, -2.0), 2.0)) for v in row] for row in st[1]]] if st[0] == "A" else st
+                    for st in d["steps"]]
+      d["dtype"] = "float32"
+    out.append(d)
   for _ in range(ctx.n(110, 2000)):
     L = rng.choice([2, 3, 4])
     dims = rng.choice([1, 2, 3])
@@ -234,8 +269,8 @@ def _cpts(pts):
   return clist([cqm(p) for p in pts]) if pts else "(@nil (list (list Q)))"
 
 
-def _inputs(tf, pts, units, dims, iform):
-  x = np.array(pts, dtype=np.float64)  # (batch, units, dims)
+def _inputs(tf, pts, units, dims, iform, dtype=np.float64):
+  x = np.array(pts, dtype=dtype)  # (batch, units, dims)
   if units == 1:
     x = x[:, 0, :]
   if iform == "list":
@@ -266,19 +301,27 @@ def _monos_arg(marg):
 def _eval_layer(tf, tfl, d):
   L, units, dims, terms = d["L"], d["units"], d["dims"], d["terms"]
   ms = d["monos"]["ms"] if d["monos"] is not None else None
+  f32 = is_f32(d)
+  dt = np.float32 if f32 else np.float64
+  rel = F32_TOL if f32 else 1e-9
   layer = tfl.layers.KroneckerFactoredLattice(
       lattice_sizes=L, units=units, num_terms=terms, monotonicities=_monos_arg(d["monos"]),
-      output_min=d["omin"], output_max=d["omax"], clip_inputs=d["clip"], dtype="float64")
+      output_min=d["omin"], output_max=d["omax"], clip_inputs=d["clip"], dtype="float32" if f32 else "float64")
   pts = d["pts"]
-  x, _ = _inputs(tf, pts, units, dims, d["iform"])
-  layer(x)  # builds
-  si = layer.scale.numpy().tolist()
-  bi = layer.bias.numpy().tolist()
-  layer.kernel.assign(np.array(d["k0"], dtype=np.float64)[None])
-  layer.scale.assign(np.array(d["s0"], dtype=np.float64))
+  x, _ = _inputs(tf, pts, units, dims, d["iform"], dt)
+  y0 = layer(x)  # builds
+  if any(v.dtype.base_dtype.name != np.dtype(dt).name for v in (layer.kernel, layer.scale, layer.bias)) or \
+     y0.dtype.name != np.dtype(dt).name:
+    return Case(d, coq=None, klass="layer_dtype", pred_fail="layer built with dtype=%s has %s / %s / %s kernel / scale / "
+                "bias and returns %s" % (np.dtype(dt).name, layer.kernel.dtype.base_dtype.name,
+                                         layer.scale.dtype.base_dtype.name, layer.bias.dtype.base_dtype.name, y0.dtype.name))
+  si = layer.scale.numpy().astype(np.float64).tolist()
+  bi = layer.bias.numpy().astype(np.float64).tolist()
+  layer.kernel.assign(np.array(d["k0"], dtype=dt)[None])
+  layer.scale.assign(np.array(d["s0"], dtype=dt))
   if d["b0"] is not None:
-    layer.bias.assign(np.array(d["b0"], dtype=np.float64))
-  b0 = layer.bias.numpy().tolist()
+    layer.bias.assign(np.array(d["b0"], dtype=dt))
+  b0 = layer.bias.numpy().astype(np.float64).tolist()
   cfg = _cfg(L, ms, d["omin"], d["omax"], d["clip"])
   # split the history at the scale re-assignments
   segs, cur = [], []
@@ -293,8 +336,8 @@ def _eval_layer(tf, tfl, d):
   changed = False
   seen_k = seen_s = False
   for si_, (seg, assign) in enumerate(segs):
-    kb = layer.kernel.numpy()[0].tolist()
-    sb = layer.scale.numpy().tolist()
+    kb = layer.kernel.numpy()[0].astype(np.float64).tolist()
+    sb = layer.scale.numpy().astype(np.float64).tolist()
     for s in seg:
       if s[0] == "K":
         if layer.kernel.constraint is not None:
@@ -304,8 +347,8 @@ def _eval_layer(tf, tfl, d):
           layer.scale.assign(layer.scale.constraint(layer.scale))
       else:
         layer.finalize_constraints()
-    ka = layer.kernel.numpy()[0].tolist()
-    sa = layer.scale.numpy().tolist()
+    ka = layer.kernel.numpy()[0].astype(np.float64).tolist()
+    sa = layer.scale.numpy().astype(np.float64).tolist()
     changed = changed or ka != kb or sa != sb
     last = si_ == len(segs) - 1
     if last:
@@ -313,12 +356,13 @@ def _eval_layer(tf, tfl, d):
       seen_s = any(s[0] in ("S", "F") for s in seg)
       y = layer(x)
       outs = _outs(y, len(pts), units)
-    terms_coq.append("CLayer %s %s %s %s %s %s %s %s %s %s %s %s %s %s" % (
+    term = "CLayer %s %s %s %s %s %s %s %s %s %s %s %s %s %s" % (
         cfg, cnat(units), cnat(dims), cnat(terms), cqm(si), cql(bi), _ck(kb), cqm(sb), cql(b0),
         _csteps(seg), _ck(ka), cqm(sa), _cpts(pts if last else []),
-        cqm(outs) if last else "(@nil (list Q))"))
+        cqm(outs) if last else "(@nil (list Q))")
+    terms_coq.append("CTol %s (%s)" % (cq(F32_TOL), term) if f32 else term)
     if assign is not None:
-      layer.scale.assign(np.array(assign, dtype=np.float64))
+      layer.scale.assign(np.array(assign, dtype=dt))
   # property predicate on the implementation's outputs
   fail = None
   # auxiliary (C07_idempotent / C07_order_irrelevant on the implementation): once both constraints
@@ -335,12 +379,12 @@ def _eval_layer(tf, tfl, d):
     outs2 = _outs(layer(x), len(pts), units)
     for o1, o2, p in zip(outs, outs2, pts):
       for u in range(units):
-        if abs(o1[u] - o2[u]) > 1e-9 * max(1.0, abs(o1[u])):
+        if abs(o1[u] - o2[u]) > rel * max(1.0, abs(o1[u])):
           aux_fail = "re-applying the constraints changed the output of unit %d at %r: %r -> %r" % (u, p[u], o1[u], o2[u])
     names = [s[0] for s in last_seg]
     if names in (["K", "S"], ["S", "K"]):
-      layer.kernel.assign(np.array(kb, dtype=np.float64)[None])
-      layer.scale.assign(np.array(sb, dtype=np.float64))
+      layer.kernel.assign(np.array(kb, dtype=dt)[None])
+      layer.scale.assign(np.array(sb, dtype=dt))
       for nm in reversed(names):
         v = layer.kernel if nm == "K" else layer.scale
         if v.constraint is not None:
@@ -348,11 +392,11 @@ def _eval_layer(tf, tfl, d):
       outs3 = _outs(layer(x), len(pts), units)
       for o1, o3, p in zip(outs, outs3, pts):
         for u in range(units):
-          if abs(o1[u] - o3[u]) > 1e-9 * max(1.0, abs(o1[u])):
+          if abs(o1[u] - o3[u]) > rel * max(1.0, abs(o1[u])):
             aux_fail = "the order of kernel and scale constraint changes the output of unit %d at %r: %r vs %r" % (
                 u, p[u], o1[u], o3[u])
   def tol(*vs):
-    return 1e-9 * max([1.0] + [abs(v) for v in vs])
+    return rel * max([1.0] + [abs(v) for v in vs])
   def inr(p):
     return all(0.0 <= c <= L - 1 for r in p for c in r)
   if seen_k and ms:
@@ -380,7 +424,7 @@ def _eval_layer(tf, tfl, d):
   bclass = ("min" if d["omin"] is not None else "") + ("max" if d["omax"] is not None else "") or "nob"
   names = "".join(s[0] for s in d["steps"])
   hclass = "reassign" if "A" in names else (names if len(names) <= 2 else "repeat")
-  klass = "layer_%s_%s_%s" % (mclass, bclass, hclass)
+  klass = "layer_%s_%s_%s%s" % (mclass, bclass, hclass, "_f32" if f32 else "")
   return Case(d, coq=terms_coq, pred_fail=fail, nontrivial=changed, klass=klass,
               info={"impl_outputs": outs, "impl_kernel": ka, "impl_scale": sa})
 
